@@ -270,3 +270,116 @@ func vlLinkHistory(nBlobs int, size int, nOps int, caseVariants bool) {
 		}
 	}
 }
+
+// ---- Import: temp file, hash while copying, rename into place ----
+
+var vlTempSeq int
+var vlNames map[*os.File]string
+
+func vlCreateTemp(dir, pattern string) (*os.File, error) {
+	vlTempSeq++
+	name := "/tmp/" + pattern + string("0123456789"[vlTempSeq%10])
+	h, err := vlOpenFile(name, os.O_RDWR|os.O_CREATE|os.O_TRUNC, 0o600)
+	if err == nil {
+		if vlNames == nil {
+			vlNames = map[*os.File]string{}
+		}
+		vlNames[h] = name
+	}
+	return h, err
+}
+
+func vlFileName(h *os.File) string { return vlNames[h] }
+
+func vlRename(oldpath, newpath string) error {
+	src := vlGet(oldpath)
+	if !src.exists {
+		return fs.ErrNotExist
+	}
+	dst := vlGet(newpath)
+	dst.exists, dst.data = true, src.data
+	src.exists, src.data = false, nil
+	return nil
+}
+
+func vlReadFrom(h *os.File, r io.Reader) (int64, error) {
+	var total int64
+	buf := make([]byte, 4)
+	for {
+		n, err := r.Read(buf)
+		if n > 0 {
+			if _, werr := vlWrite(h, buf[:n]); werr != nil {
+				return total, werr
+			}
+			total += int64(n)
+		}
+		if err == io.EOF {
+			return total, nil
+		}
+		if err != nil {
+			return total, err
+		}
+	}
+}
+
+type vlBytesReader struct {
+	b   []byte
+	pos int
+}
+
+func (r *vlBytesReader) Read(p []byte) (int, error) {
+	if r.pos >= len(r.b) {
+		return 0, io.EOF
+	}
+	n := copy(p, r.b[r.pos:])
+	r.pos += n
+	return n, nil
+}
+
+// VerifC08Import: a blob of size arbitrary bytes is imported into a cache in which its file is absent,
+// is the zero-length / partial leftover of a Put that failed, or is already complete.
+func VerifC08Import(size int) {
+	vlFS, vlHandles, vlNames = map[string]*vlFile{}, map[*os.File]*vlHandle{}, map[*os.File]string{}
+	vlDigests, vlBlobs = nil, nil
+	b := make([]byte, size)
+	for i := range b {
+		b[i] = verifNondetU8("blob")
+	}
+	d := Digest{sum: vfSum(b)}
+	vlBlobs, vlDigests = append(vlBlobs, b), append(vlDigests, d)
+	c := &DiskCache{dir: "/cache", now: time.Now}
+	switch verifChoice(3) {
+	case 1: // a Put whose source delivered other bytes of the same length has failed before
+		bad := make([]byte, size)
+		for i := range bad {
+			bad[i] = verifNondetU8("bad")
+		}
+		same := true
+		for i := range bad {
+			if bad[i] != b[i] {
+				same = false
+			}
+		}
+		verifAssume(!same)
+		err := PutBytes(c, d, bad)
+		verifAssert(err != nil, "put-of-wrong-bytes-fails")
+		verifReach("leftover-of-a-failed-put")
+	case 2:
+		verifAssert(PutBytes(c, d, b) == nil, "put-of-correct-bytes-succeeds")
+	}
+	got, err := c.Import(&vlBytesReader{b: append([]byte(nil), b...)}, int64(size))
+	verifReach("imported")
+	verifAssert(err == nil, "import-of-correct-bytes-succeeds")
+	if err != nil {
+		return
+	}
+	verifAssert(got == d, "import-returns-the-content's-digest")
+	e, gerr := c.Get(d)
+	verifAssert(gerr == nil && e.Size == int64(size), "successful-import-is-retrievable")
+	f := vlGet(vlGetFile(c, d))
+	ok := f.exists && len(f.data) == size
+	for i := 0; ok && i < size; i++ {
+		ok = f.data[i] == b[i]
+	}
+	verifAssert(ok, "imported-blob-has-the-imported-content")
+}
